@@ -331,7 +331,9 @@ fn emit_fn(d: &FnDirective, srcs: &mut Sources, out: &mut Out, stats: &mut norm:
             let s = out.cur();
             out.push(text);
             let pr = if props.is_empty() { d.body_props.clone() } else { props.clone() };
-            out.regions.push(Region { start: s, end: out.line, kind: "clause".into(), item: item_name.clone(), clause: id.clone(), props: pr });
+            // clauses of a function whose body is not part of this unit are assumptions here, not obligations
+            let kind = if mode_ext { "assumed-clause" } else { "clause" };
+            out.regions.push(Region { start: s, end: out.line, kind: kind.into(), item: item_name.clone(), clause: id.clone(), props: pr });
         }
     }
     if mode_sig {
@@ -524,8 +526,11 @@ fn main() {
         let dir = path.parent().unwrap().to_path_buf();
         for l0 in t.lines() {
             let mut l = l0.to_string();
+            let is_include = l.trim().starts_with("//@ include ");
             for (k, v) in subst {
-                l = l.replace(&format!("${}", k), v);
+                // `~` stands for a space inside a parameter value; it is kept while the value travels through include lines
+                let vv = if is_include { v.clone() } else { v.replace('~', " ") };
+                l = l.replace(&format!("${}", k), &vv);
             }
             // `@FMTID("literal")` -> the id N9 gives that format string
             while let Some(pos) = l.find("@FMTID(\"") {
@@ -541,7 +546,7 @@ fn main() {
                 let mut sub: Vec<(String, String)> = subst.to_vec();
                 for kv in it {
                     if let Some((k, v)) = kv.split_once('=') {
-                        sub.push((k.to_string(), v.replace('~', " ")));
+                        sub.push((k.to_string(), v.to_string()));
                     }
                 }
                 expand(&dir.join(f), lines, depth + 1, &sub);
